@@ -37,7 +37,7 @@ PROBES = ["derived_object_as_base_argument", "same_object_two_handles", "delete_
           "property_roundtrip", "inherited_method_called", "enum_argument", "enum_return",
           "retained_object_returned_twice", "calls_after_unload", "nonconst_reference_argument",
           "uint64_argument_above_2_53", "class_typed_property_read", "class_typed_property_written",
-          "template_instantiation_used"]
+          "template_instantiation_used", "library_retained_an_argument"]
 
 
 def batches(tier):
@@ -680,7 +680,13 @@ class Hist:
         for e in evs:
             if e["entity"] not in self.by_entity or e["ret"] == "throw":
                 continue
-            ret = self.by_entity[e["entity"]][1].ret
+            fn = self.by_entity[e["entity"]][1]
+            if self.retained_on:
+                for a, enc in zip(fn.args, e["args"]):
+                    if a.ty.kind == "class" and a.ty.mode == "sptr" and enc.startswith("o:") and enc[2:].isdigit():
+                        self.tr.retained.add(int(enc[2:]))       # the library kept the pointer it was given
+                        self.pr("library_retained_an_argument")
+            ret = fn.ret
             if ret is None:
                 continue
             parts = [ret] if not isinstance(ret, tuple) else [ret[1], ret[2]]
